@@ -194,14 +194,15 @@ func hsOf(tx *caseTx, idx int, code []byte, amount uint64, ht byte, fork bool) [
 
 // scenario builder state
 type scen struct {
-	carrySats   *uint64 // set by the commit scenarios: what the signed tx object carries
-	carryScript []byte
-	frameBroken bool // library signing changed something other than unlocking scripts
-	rng         *rand.Rand
-	keys        []keyPair
-	notes       []sigNote
-	knote       []Ev
-	seenK       map[string]bool
+	carrySats              *uint64 // set by the commit scenarios: what the signed tx object carries
+	carryScript            []byte
+	frameBroken            bool // library signing changed something other than unlocking scripts
+	forgedN, forgedVariant int  // when set: the next forged signature uses this S length / variant
+	rng                    *rand.Rand
+	keys                   []keyPair
+	notes                  []sigNote
+	knote                  []Ev
+	seenK                  map[string]bool
 }
 
 func (s *scen) keyBytes(k keyPair, form string) []byte {
@@ -245,8 +246,12 @@ func (s *scen) sign(class string, k keyPair, tx *caseTx, idx int, code []byte, a
 		// numerically tiny, yet compare "greater" byte-wise; n = 32 is the real boundary
 		half, _ := new(big.Int).SetString("7fffffffffffffffffffffffffffffff5d576e7357a4501ddfe92f46681b20a0", 16)
 		n := 1 + s.rng.Intn(32)
+		variant := s.rng.Intn(4)
+		if s.forgedN > 0 {
+			n, variant = s.forgedN, s.forgedVariant
+		}
 		sb := append([]byte{}, half.Bytes()[:n]...)
-		switch s.rng.Intn(4) {
+		switch variant {
 		case 0:
 			sb[n-1]++
 		case 1:
@@ -549,6 +554,25 @@ func sigsCmd(args []string) error {
 			unlock = append(unlock, pushBytes(s.sign(cl, ks[order[j]], tx, idx, scj, amount, htj, isFork(fl, htj)))...)
 		}
 		emit("multi", "multisig", unlock, lock, fl, tx, idx, amount)
+	}
+	// every S length 1..32 on the byte-prefix boundary of half the group order (one up / one down), as a
+	// well-formed signature by nobody, under LOW_S with the result consumed: false, never an error
+	for n := 1; n <= 32; n++ {
+		for variant := 0; variant < 2; variant++ {
+			fl := scriptflag.VerifyLowS | scriptflag.VerifyDERSignatures
+			ht := byte(0x01)
+			if n%2 == 0 {
+				fl |= scriptflag.EnableSighashForkID | scriptflag.UTXOAfterGenesis
+				ht = 0x41
+			}
+			tx, idx, amount := randTx()
+			k := s.keys[rng.Intn(len(s.keys))]
+			lock := append(pushBytes(s.keyBytes(k, "comp")), 0xac, 0x91)
+			s.forgedN, s.forgedVariant = n, variant
+			sig := s.sign("forged", k, tx, idx, lock, amount, ht, isFork(fl, ht))
+			s.forgedN = 0
+			emit("p2pk", "p2pk-forged", pushBytes(sig), lock, fl, tx, idx, amount)
+		}
 	}
 	return nil
 }
